@@ -24,8 +24,8 @@ import (
 func (s *scenario) stubFor(bp *builtPool, n int, height int32) *stubSource {
 	st := &stubSource{have: map[chainhash.Hash]struct{}{}}
 	for i, tx := range bp.txs[:n] {
-		st.descs = append(st.descs, &mining.TxDesc{Tx: tx, Added: time.Unix(s.now, 0), Height: height,
-			Fee: s.txs[i].fee, FeePerKB: s.txs[i].fpk})
+		st.descs = append(st.descs, &mining.TxDesc{Tx: tx, Added: time.Unix(s.now-int64(i*37%500), 0),
+			Height: height - int32(i*3%7), Fee: s.txs[i].fee, FeePerKB: s.txs[i].fpk})
 		st.have[*tx.Hash()] = struct{}{}
 	}
 	return st
